@@ -3,7 +3,7 @@ import json
 import re
 
 from hed.models.column_metadata import ColumnMetadata
-from hed.errors.error_types import ErrorContext
+from hed.errors.error_types import ErrorContext, SidecarErrors
 from hed.errors import ErrorHandler
 from hed.errors.exceptions import HedFileError, HedExceptions
 from hed.models.hed_string import HedString
@@ -24,6 +24,7 @@ class Sidecar:
             name (str or None): Optional name identifying this sidecar, generally a filename.
         """
         self.name = name
+        self._load_issues = []
         self.loaded_dict = self.load_sidecar_files(files)
         self._def_dict = None
         self._extract_definition_issues = []
@@ -153,6 +154,11 @@ class Sidecar:
         merged_dict = {}
         for file in files:
             loaded_json = self.load_sidecar_file(file)
+            if not isinstance(loaded_json, dict):
+                # A sidecar must be a JSON object.  Anything else has no columns; validation reports it.
+                self._load_issues += ErrorHandler.format_error(SidecarErrors.WRONG_HED_DATA_TYPE,
+                                                               given_type=type(loaded_json), expected_type="dict")
+                continue
             merged_dict.update(loaded_json)
         return merged_dict
 
